@@ -31,6 +31,8 @@ func c02SchedSpecs() []c02SchedSpec {
 	return []c02SchedSpec{
 		{ID: "T1-mem-two-sessions-two-mailboxes", Backend: "mem", Bound: [2]int{3, 6}},
 		{ID: "T2-file-two-sessions-one-mailbox", Backend: "file", SameBox: true, Bound: [2]int{3, 6}},
+		// the mailbox does not exist yet: both deliveries create it
+		{ID: "T3-mem-two-sessions-one-new-mailbox", Backend: "mem", SameBox: true, Bound: [2]int{3, 6}},
 	}
 }
 
